@@ -352,3 +352,54 @@ def preprocess(work, V, tier='thorough'):
     out = [] if tier == 'quick' else [{'module': 'Preprocess', 'cfg': 'MC_Preprocess.cfg', 'distinct_states': ok['distinct'], 'violation': ok['violation']}]
     return out + [{'module': 'Preprocess', 'cfg': 'MC_Preprocess_prefix.cfg (plain str.lower(), before the fix)', 'distinct_states': old['distinct'], 'violation': old['violation'], 'expected_violation': 'SameLength'},
                   {'module': 'Preprocess', 'cfg': 'MC_Preprocess_bind.cfg', 'distinct_states': b['distinct'], 'violation': b['violation'], 'strings_processed_by_code': len(keys), 'drift': drift}]
+
+
+_CM_TEXT = {'U': '3 us dollars', 'R': '4 euros', 'C': '50 cents', 'E': '20 pence', 'N': '7'}
+_CM_UNIT = {'U': 'United States dollar', 'R': 'Euro', 'C': 'Cent', 'E': 'Pence'}
+
+
+def compound_merge(work, V):
+    """CompoundMerge.tla: the grouping loop of BaseCurrencyParser.__merge_compound_unit terminates, keeps text order, puts
+    every currency amount in exactly one group and adds fraction / bare amounts as hundredths (all item sequences of up to
+    five items); every sequence of up to four items is written out ("3 us dollars 50 cents 7 ...", blanks and one "and")
+    and recognised by recognize_currency; groups, units and values are compared with the model."""
+    ok = tlc.run(work, 'CompoundMerge', cfg='MC_CompoundMerge.cfg', timeout=900)
+    b = tlc.run(work, 'CompoundMerge', cfg='MC_CompoundMerge_bind.cfg', dump=True, timeout=900)
+    for r, name in ((ok, 'MC_CompoundMerge'), (b, 'MC_CompoundMerge_bind')):
+        if not r['ok']:
+            V.note('mechanism-drift: CompoundMerge/%s violates %s' % (name, r['violation']))
+    finals = {}
+    for st in tlc.read_dump(b['dump'], where='pc = "done"'):
+        finals[tuple(st['items'])] = st['outs']
+    cases, meta = [], []
+    for items in sorted(finals):
+        if any(a == 'N' and b == 'N' for a, b in zip(items, items[1:])):
+            continue      # the extractor hands over at most one bare number after an amount (its business, not the loop's)
+        for conn in (' ', ' and '):
+            if conn == ' and ' and len(items) < 2:
+                continue
+            parts = [_CM_TEXT[k] for k in items]
+            starts, text = [], ''
+            for n, ptxt in enumerate(parts):
+                if n:
+                    text += conn if n == 1 else ' '
+                starts.append(len(text))
+                text += ptxt
+            cases.append({'api': 'currency', 'culture': 'en-us', 'text': text})
+            meta.append((items, starts, [len(x) for x in parts]))
+    obs = pool.run_cases(cases, init_name='unit', batch=100, timeout=20.0)
+    drift = 0
+    for c, (items, starts, lens), o in zip(cases, meta, obs):
+        want = []
+        for g in finals[items]:
+            f, l = g['first'] - 1, g['last'] - 1
+            val = g['val']
+            sval = ('%d' % (val // 100)) if val % 100 == 0 else ('%d.%02d' % (val // 100, val % 100)).rstrip('0')
+            want.append([starts[f], starts[l] + lens[l] - 1, sval, _CM_UNIT[g['main']]])
+        got = [[e['s'], e['e'], e['res'].get('value'), e['res'].get('unit')] for e in (o.get('ents') or [])]
+        if got != want:
+            drift += 1
+            if drift <= 3:
+                V.note('mechanism-drift: recognize_currency(%r): model %s, code %s' % (c['text'], want, got))
+    return [{'module': 'CompoundMerge', 'cfg': 'MC_CompoundMerge.cfg', 'distinct_states': ok['distinct'], 'violation': ok['violation']},
+            {'module': 'CompoundMerge', 'cfg': 'MC_CompoundMerge_bind.cfg', 'distinct_states': b['distinct'], 'violation': b['violation'], 'texts_recognised_by_code': len(cases), 'drift': drift}]
